@@ -109,6 +109,87 @@ pub struct VerifDump {
     pub verify_queue_len: u64,
     /// number of orphan transactions (filled in by the service)
     pub orphan_len: u64,
+    /// the orphan pool's entries (filled in by the service)
+    pub orphans: Vec<VerifOrphan>,
+    /// the orphan pool's `by_out_point` index (filled in by the service)
+    pub orphan_by_out_point: Vec<(OutPoint, Vec<ProposalShortId>)>,
+    /// the verify queue in pop order of a `SubmitTimeFirst` worker: (id, remote = (declared
+    /// cycles, peer), is_large_cycle, is_proposal_tx) (filled in by the service)
+    pub verify_queue: Vec<(ProposalShortId, Option<(u64, usize)>, bool, bool)>,
+    /// number of activities in flight that may still change the pool, the orphan pool or the
+    /// verify queue without a further request: verify workers between looking at the queue and
+    /// the end of `after_process`, "recover back" tasks spawned by `submit_entry`, and the reorg
+    /// task between receiving a notification and the end of its orphan pass (filled in by the
+    /// service)
+    pub inflight: u64,
+}
+
+/// One entry of the orphan pool.
+#[derive(Clone, Debug)]
+pub struct VerifOrphan {
+    /// proposal short id (key of the orphan pool)
+    pub id: ProposalShortId,
+    /// the transaction
+    pub tx: TransactionView,
+    /// the peer that sent it
+    pub peer: usize,
+    /// the cycles that peer declared
+    pub declared_cycles: u64,
+    /// expiry (unix seconds)
+    pub expires_at: u64,
+}
+
+/// Counter of in-flight activities, see `VerifDump::inflight`.
+#[derive(Clone, Debug, Default)]
+pub struct VerifInflight(pub std::sync::Arc<std::sync::atomic::AtomicU64>);
+
+impl VerifInflight {
+    /// Marks one activity as started; it ends when the guard is dropped.
+    pub fn enter(&self) -> VerifInflightGuard {
+        self.0.fetch_add(1, std::sync::atomic::Ordering::SeqCst);
+        VerifInflightGuard(std::sync::Arc::clone(&self.0))
+    }
+    /// Current number of activities.
+    pub fn get(&self) -> u64 {
+        self.0.load(std::sync::atomic::Ordering::SeqCst)
+    }
+}
+
+/// Guard returned by `VerifInflight::enter`.
+pub struct VerifInflightGuard(std::sync::Arc<std::sync::atomic::AtomicU64>);
+
+impl Drop for VerifInflightGuard {
+    fn drop(&mut self) {
+        self.0.fetch_sub(1, std::sync::atomic::Ordering::SeqCst);
+    }
+}
+
+impl crate::component::orphan::OrphanPool {
+    /// Copies the orphan pool into plain data.
+    pub(crate) fn verif_dump(
+        &self,
+    ) -> (
+        Vec<VerifOrphan>,
+        Vec<(OutPoint, Vec<ProposalShortId>)>,
+    ) {
+        let orphans = self
+            .entries
+            .iter()
+            .map(|(id, e)| VerifOrphan {
+                id: id.clone(),
+                tx: e.tx.clone(),
+                peer: e.peer.value(),
+                declared_cycles: e.cycle,
+                expires_at: e.expires_at,
+            })
+            .collect();
+        let index = self
+            .by_out_point
+            .iter()
+            .map(|(o, ids)| (o.clone(), ids.iter().cloned().collect()))
+            .collect();
+        (orphans, index)
+    }
 }
 
 impl TxPool {
@@ -212,6 +293,10 @@ impl TxPool {
                 .collect(),
             verify_queue_len: 0,
             orphan_len: 0,
+            orphans: Vec::new(),
+            orphan_by_out_point: Vec::new(),
+            verify_queue: Vec::new(),
+            inflight: 0,
         }
     }
 }
